@@ -67,9 +67,9 @@ Proof.
   induction answers as [|rr rest IH]; intros i e w b Hb; cbn [view_select existsb].
   - split; [intros [H|H]; auto|intros [H|[H|H]]; auto; discriminate].
   - unfold rec_matches at 1. destruct (snd rr =? ty) eqn:T; cbn [negb andb].
-    2:{ specialize (IH (S i) e w b Hb). destruct (view_select rest q ty (S i) e w b). rewrite IH. cbn [orb]. tauto. }
+    2:{ specialize (IH (S i) e w b Hb). destruct (view_select rest q ty (S i) e w b). rewrite IH. cbn [orb]. reflexivity. }
     destruct (go_nameMatches (go_canonical_name_ascii (fst rr)) q) eqn:M; cbn [negb orb].
-    2:{ specialize (IH (S i) e w b Hb). destruct (view_select rest q ty (S i) e w b). rewrite IH. tauto. }
+    2:{ specialize (IH (S i) e w b Hb). destruct (view_select rest q ty (S i) e w b). rewrite IH. reflexivity. }
     destruct (wildcard_owner (go_canonical_name_ascii (fst rr))) eqn:W; cbn [negb].
     + pose proof (wildcard_len _ W) as Hl.
       destruct (b <? go_len (go_canonical_name_ascii (fst rr)) - 2)%Z eqn:B1.
